@@ -5,8 +5,8 @@ from vt import detsched as ds, wl_c27, sysx, osback
 ID = 'C27'
 ENGINE = 'detsched'
 TECHNIQUE = 'runtime monitoring under a deterministic cooperative scheduler (opcode-level yield points in miros/thread_safe_attributes.py and in the workload statements): serial-equivalence oracle, exception and deadlock detection; a few small scenarios per run are enumerated systematically (every schedule within a delay bound, vt/sysx.py)'
-RULE = ('2-4 real threads execute 1-3 statements each on one shared object: o.a += c, o.a -= c, o.a *= c, o.a = k, x = o.a (and o.b += c on a '
-        'second attribute); the statements are real source lines of vt/wl_c27.py; detsched switches at every bytecode boundary of '
+RULE = ('2-4 real threads execute 1-3 statements each on one shared object: o.a OP= c for every augmented-assignment operator of integers (+= -= *= <<= >>= //= %= |= &= ^=), o.a = k, x = o.a (and o.b += c on a '
+        'second attribute), starting from a random initial value (0, 1, 3, 12); the statements are real source lines of vt/wl_c27.py; detsched switches at every bytecode boundary of '
         'ThreadSafeAttribute.__get__/__set__ and of the statements themselves (so between the descriptor\'s get and set), seeded random / '
         'PCT schedules (in a fifth of the runs one thread is held for 2.5 s of virtual time in the middle of a statement by an injected delay; the cooperative lock honours acquire timeouts in virtual time); a thread that raises, a quiescent state with an unfinished thread (deadlock), a read that returns a value no serial '
         'order can produce, or a final value outside the set of final values of all serial orders of the same statements (computed by '
@@ -14,12 +14,12 @@ RULE = ('2-4 real threads execute 1-3 statements each on one shared object: o.a 
         'sequences of runs mixing >= 2 statement kinds. Every twentieth case repeats the workload (2-5 threads x 2-6 statements) on REAL threads with the real RLock (vt/osback.py: nothing substituted, switch interval 1 us, random yields at line starts of miros code and of the statements); a run that does not finish in the wall-clock limit is inconclusive there, never a verdict. ' + sysx.RULE_TEXT % (1, 1))
 CASES = {'quick': 2500, 'thorough': 150000}
 BUDGET = {'quick': 150, 'thorough': 600}
-REQUIRE = {'runs': 1000, 'runs_mixing_plain_and_augmented': 300, 'switch_between_get_and_set': 200, 'systematic_schedules': 300, 'systematic_scenarios_exhausted': 2, 'os_backend_runs': 60, 'runs_with_a_thread_held_inside_a_statement': 200}
+REQUIRE = {'runs': 1000, 'runs_mixing_plain_and_augmented': 300, 'switch_between_get_and_set': 200, 'systematic_schedules': 300, 'systematic_scenarios_exhausted': 2, 'os_backend_runs': 60, 'runs_with_a_thread_held_inside_a_statement': 200, 'runs_with_shift_operators': 300}
 ASSUME = ['statement-level atomicity is the reference: the set of legal outcomes is that of all serial orders of whole statements']
 ANNOUNCE_CASES = True
 
 
-def serial_outcomes(plans):
+def serial_outcomes(plans, init=0):
   """all final values of 'a' reachable by interleaving whole statements"""
   from functools import lru_cache
   n = len(plans)
@@ -33,18 +33,14 @@ def serial_outcomes(plans):
       if pos[i] < len(plans[i]):
         op, arg = plans[i][pos[i]]
         v = val
-        if op == '+=':
-          v = val + arg
-        elif op == '-=':
-          v = val - arg
-        elif op == '*=':
-          v = val * arg
+        if op in wl_c27.APPLY:
+          v = wl_c27.APPLY[op](val, arg)
         elif op == '=':
           v = arg
         np = pos[:i] + (pos[i] + 1,) + pos[i + 1:]
         out |= go(np, v)
     return frozenset(out)
-  return go(tuple(0 for _ in plans), 0)
+  return go(tuple(0 for _ in plans), init)
 
 
 SYS = {'quick': (8, 1, 3000, 75.0), 'thorough': (64, 1, 100000, 120.0)}     # systematic cases, deviation bound, schedule cap, seconds cap (per scenario)
@@ -64,18 +60,19 @@ def os_case(ctx, n):
   for t in range(rng.randint(2, 5)):
     plan = []
     for _ in range(rng.randint(2, 6)):
-      op = rng.choice(['+=', '+=', '-=', '*=', '=', '=', 'read', 'b+='])
-      plan.append((op, {'+=': rng.randint(1, 9), '-=': rng.randint(1, 9), '*=': rng.randint(2, 3), '=': rng.randint(10, 99), 'read': None, 'b+=': rng.randint(1, 9)}[op]))
+      plan.append(wl_c27.gen_op(rng))
     plans.append(tuple(plan))
+  init = rng.choice([0, 1, 3, 12])
 
   class K(metaclass=TSA.MetaThreadSafeAttributes):
     _attributes = ['a', 'b']
   o = K()
+  o.a = init
   outs = [[] for _ in plans]
   with osback.Perturb(rng.randrange(1 << 30), p_yield=rng.choice([0.1, 0.3, 0.6]), extra_files=(wl_c27.__file__,)) as P:
     finished, excs = osback.run_threads([(wl_c27.worker, (o, pl, outs[i])) for i, pl in enumerate(plans)], limit=20.0)
   ctx.count('os_backend_yields_injected', P.nyields)
-  wit = {'backend': 'os threads', 'plans': plans}
+  wit = {'backend': 'os threads', 'plans': plans, 'initial_value': init}
   if excs:
     ctx.count('os_backend_runs')
     ctx.violation('C27/exception-in-thread', 'real threads: a thread using the attribute raised: %r' % excs, wit)
@@ -89,7 +86,7 @@ def os_case(ctx, n):
   if not ok:
     ctx.count('os_backend_inconclusive')
     return
-  legal = serial_outcomes(tuple(tuple(x for x in pl if x[0] != 'b+=') for pl in plans))
+  legal = serial_outcomes(tuple(tuple(x for x in pl if x[0] != 'b+=') for pl in plans), init)
   if final[0] not in legal:
     ctx.violation('C27/lost-update', 'real threads: final value %r is not the result of any serial order of the statements (legal: %r)' % (final[0], sorted(legal)[:12]), wit)
 
@@ -102,25 +99,28 @@ def scenario(ctx, n):
   for t in range(nthreads):
     plan = []
     for _ in range((1 if ctx.tier == 'quick' else rng.randint(1, 2)) if small else rng.randint(1, 3)):
-      op = rng.choice(['+=', '+=', '-=', '*=', '=', '=', 'read', 'b+='])
-      plan.append((op, {'+=': rng.randint(1, 9), '-=': rng.randint(1, 9), '*=': rng.randint(2, 3), '=': rng.randint(10, 99), 'read': None, 'b+=': rng.randint(1, 9)}[op]))
+      plan.append(wl_c27.gen_op(rng))
     plans.append(tuple(plan))
+  init = rng.choice([0, 1, 3, 12])
   pol = dict(policy='random', p_switch=rng.choice([0.03, 0.1, 0.3])) if rng.random() < 0.6 else dict(policy='pct', pct_depth=rng.choice([2, 3, 4]), pct_len=600)
   s = ds.Sched(seed=rng.randrange(1 << 30), max_steps=300000, **pol)
   ds.install(s, op_mods=[TSA, wl_c27])
   if not small and rng.random() < 0.2:
     # a thread is held for 2.5 s of virtual time in the middle of one of its statements (possibly between the __get__ and the
     # __set__ of an augmented assignment, holding the lock): everybody else just has to wait that long
-    s.inject = {'match': lambda me, loc: me.role == 'worker' and isinstance(loc, tuple) and loc[0] in ('inc', 'dec', 'mul', 'inc_b', 'setk', 'rd'),
+    s.inject = {'match': lambda me, loc: me.role == 'worker' and isinstance(loc, tuple) and loc[0] in wl_c27.AUG_FUNCS + ('setk', 'rd'),
                 'visit': rng.randint(1, 40), 'sleep': 2.5}
     ctx.count('runs_with_a_thread_held_inside_a_statement')
   try:
     class K(metaclass=TSA.MetaThreadSafeAttributes):
       _attributes = ['a', 'b']
     o = K()
+    o.a = init
     outs = [[] for _ in plans]
     kinds = set(op for pl in plans for op, _ in pl)
-    wit = {'plans': plans, 'policy': pol}
+    if kinds & {'<<=', '>>='}:
+      ctx.count('runs_with_shift_operators')
+    wit = {'plans': plans, 'policy': pol, 'initial_value': init}
     try:
       ths = [ds.SThread(target=wl_c27.worker, args=(o, pl, outs[i])) for i, pl in enumerate(plans)]
       for t in ths:
@@ -136,11 +136,11 @@ def scenario(ctx, n):
     ctx.count('runs')
     if len(kinds) >= 2:
       ctx.distinct(s.signature())
-    if '=' in kinds and kinds & {'+=', '-=', '*='}:
+    if '=' in kinds and kinds & set(wl_c27.APPLY):
       ctx.count('runs_mixing_plain_and_augmented')
     # coverage: a context switch away from a thread that is inside an augmented assignment (between get and set)
     for (a, b, loc) in s.trail:
-      if isinstance(loc, tuple) and loc[0] in ('inc', 'dec', 'mul', 'inc_b'):
+      if isinstance(loc, tuple) and loc[0] in wl_c27.AUG_FUNCS:
         ctx.count('switch_between_get_and_set')
         break
     exc = [(t.name, repr(t.exc)) for t in s.threads if t.exc is not None]
@@ -160,7 +160,7 @@ def scenario(ctx, n):
     except ds.Verdict as v:
       ctx.violation('C27/lock-left-held', 'after all threads finished another thread cannot read the attribute (%s): the lock was left held' % v.kind, wit)
       return
-    legal = serial_outcomes(tuple(tuple(x for x in pl if x[0] != 'b+=') for pl in plans))
+    legal = serial_outcomes(tuple(tuple(x for x in pl if x[0] != 'b+=') for pl in plans), init)
     if final[0] not in legal:
       ctx.violation('C27/lost-update', 'final value %r is not the result of any serial order of the statements (legal: %r)' % (final[0], sorted(legal)[:12]), wit)
       return
